@@ -35,6 +35,7 @@ type fsWorld struct {
 	now     time.Time
 	failing bool
 	syncErr bool // Sync reports an error
+	writeErr bool // every Write is rejected (full disk)
 	reads   int  // clock readings in the current operation
 	events  []fsEvent
 	nOpen   int
@@ -131,7 +132,7 @@ func (c *Ctx) newFsWorld(ro *Roles) (*fsWorld, *entryWorld, string) {
 			path, flag := avStr(args[0]), int(avInt(args[1]))
 			if w.failing {
 				w.events = append(w.events, fsEvent{op: "openfail", path: path, flag: flag})
-				return TupleV{NilV{}, ip.errVal("open " + path + ": no such file or directory")}, true
+				return TupleV{NilV{}, ip.errValKind("*io/fs.PathError", "open " + path + ": no such file or directory")}, true
 			}
 			w.nOpen++
 			h := fmt.Sprintf("fd%d", w.nOpen)
@@ -158,7 +159,7 @@ func (c *Ctx) newFsWorld(ro *Roles) (*fsWorld, *entryWorld, string) {
 			if e, ok := w.entry(filepath.Base(avStr(args[0]))); ok {
 				return TupleV{&IfaceV{T: types.Universe.Lookup("error").Type(), V: &Sym{Name: "finfo:" + e.name}}, NilV{}}, true
 			}
-			return TupleV{NilV{}, ip.errVal("no such file or directory")}, true
+			return TupleV{NilV{}, ip.errValKind("*io/fs.PathError", "no such file or directory")}, true
 		case "os.Remove":
 			w.events = append(w.events, fsEvent{op: "remove", path: avStr(args[0])})
 			return NilV{}, true
@@ -177,12 +178,12 @@ func (c *Ctx) newFsWorld(ro *Roles) (*fsWorld, *entryWorld, string) {
 				case "Write", "WriteString", "Sync", "Close", "Read", "Seek", "Stat", "Truncate", "Chmod":
 					w.events = append(w.events, fsEvent{op: m + "-on-nil"})
 					if m == "Write" || m == "WriteString" {
-						return TupleV{kInt(0), ip.errVal("invalid argument")}, true
+						return TupleV{kInt(0), ip.errValKind("*io/fs.PathError", "invalid argument")}, true
 					}
 					if m == "Stat" {
-						return TupleV{NilV{}, ip.errVal("invalid argument")}, true
+						return TupleV{NilV{}, ip.errValKind("*io/fs.PathError", "invalid argument")}, true
 					}
-					return ip.errVal("invalid argument"), true
+					return ip.errValKind("*io/fs.PathError", "invalid argument"), true
 				}
 				rtPanic("nil pointer dereference in (*os.File).%s", m)
 			}
@@ -191,7 +192,10 @@ func (c *Ctx) newFsWorld(ro *Roles) (*fsWorld, *entryWorld, string) {
 				w.events = append(w.events, fsEvent{op: "write", file: h, path: w.paths[h], data: string(avBytes(args[1]))})
 				w.mtime[w.paths[h]] = w.now
 				if !w.open[h] {
-					return TupleV{kInt(0), ip.errVal("file already closed")}, true
+					return TupleV{kInt(0), ip.errValKind("*io/fs.PathError", "file already closed")}, true
+				}
+				if w.writeErr {
+					return TupleV{kInt(0), ip.errValKind("*io/fs.PathError", "write "+w.paths[h]+": no space left on device")}, true
 				}
 				return TupleV{kInt(int64(sliceLen(args[1]))), NilV{}}, true
 			case "WriteString":
@@ -200,13 +204,13 @@ func (c *Ctx) newFsWorld(ro *Roles) (*fsWorld, *entryWorld, string) {
 			case "Sync":
 				w.events = append(w.events, fsEvent{op: "sync", file: h})
 				if w.syncErr {
-					return ip.errVal("sync: input/output error"), true
+					return ip.errValKind("*io/fs.PathError", "sync: input/output error"), true
 				}
 				return NilV{}, true
 			case "Close":
 				w.events = append(w.events, fsEvent{op: "close", file: h})
 				if !w.open[h] {
-					return ip.errVal("file already closed"), true
+					return ip.errValKind("*io/fs.PathError", "file already closed"), true
 				}
 				delete(w.open, h)
 				return NilV{}, true
@@ -456,6 +460,8 @@ func (c *Ctx) checkFileAppenderSemantics(r *Report, ro *Roles, rule string) map[
 			op      string // start, write, stop
 			data    string
 			syncErr bool
+			// writeErr: the device rejects every write (full disk): the call still returns normally
+			writeErr bool
 		}
 		steps := []step{{what: "Start", at: t0, op: "start"}, {what: "a write in the starting interval", at: t0.Add(1 * time.Second), op: "write", data: "w1\n"}}
 		if rotating {
@@ -510,6 +516,18 @@ func (c *Ctx) checkFileAppenderSemantics(r *Report, ro *Roles, rule string) map[
 				step{what: "Start after that (fourth life)", at: b2.Add(time.Hour), op: "start"},
 				step{what: "a write in the fourth life", at: b2.Add(time.Hour + time.Second), op: "write", data: "s3\n"},
 				step{what: "Stop (fourth life)", at: b2.Add(2 * time.Hour), op: "stop"})
+			// failures of different kinds on one appender, in both orders: a rejected write (full disk), a boundary
+			// at which the next file cannot be created, a rejected write again
+			t4 := b2.Add(5*time.Hour + 7*time.Second)
+			b4 := t4.Truncate(10 * time.Minute).Add(10 * time.Minute)
+			steps = append(steps, step{what: "Start (fifth life)", at: t4, op: "start"},
+				step{what: "a write the full disk rejects", at: t4.Add(time.Second), op: "write", data: "d1\n", writeErr: true},
+				step{what: "a second rejected write", at: t4.Add(2 * time.Second), op: "write", data: "d2\n", writeErr: true},
+				step{what: "the first write after a boundary at which the next file cannot be created, after rejected writes", at: b4.Add(time.Second), failing: true, op: "write", data: "d3\n"},
+				step{what: "a rejected write in the interval of the failed rotation", at: b4.Add(2 * time.Second), failing: true, op: "write", data: "d4\n", writeErr: true},
+				step{what: "the first write after the next boundary, again without a directory and with a full disk", at: b4.Add(10*time.Minute + time.Second), failing: true, op: "write", data: "d5\n", writeErr: true},
+				step{what: "the first write after the boundary at which everything works again", at: b4.Add(20*time.Minute + time.Second), op: "write", data: "d6\n"},
+				step{what: "Stop (fifth life)", at: b4.Add(time.Hour), op: "stop"})
 		}
 		var oodWhy string
 		{
@@ -539,7 +557,7 @@ func (c *Ctx) checkFileAppenderSemantics(r *Report, ro *Roles, rule string) map[
 		var wantOpenAt, lastAttempt time.Time
 		prevPath := ""
 		for _, stp := range steps {
-			w.now, w.failing, w.reads, w.syncErr = stp.at, stp.failing, 0, stp.syncErr
+			w.now, w.failing, w.reads, w.syncErr, w.writeErr = stp.at, stp.failing, 0, stp.syncErr, stp.writeErr
 			before := len(w.events)
 			var out string
 			var err error
